@@ -22,6 +22,7 @@
 #include <tsolvers/LATHandler.h>
 #include <tsolvers/RDLTHandler.h>
 #include <unsatcores/UnsatCoreBuilder.h>
+#include <common/VerifTrace.h>
 
 namespace opensmt {
 
@@ -73,6 +74,7 @@ void MainSolver::push() {
     bool alreadyUnsat = isLastFrameUnsat();
     frames.push();
     preprocessor.push();
+    OSMT_VERIF_EMIT("FRAME\tpush\t" + std::to_string(frames.last().getId()));
     frameTerms.push(newFrameTerm(frames.last().getId()));
     termNames.pushScope();
     if (alreadyUnsat) { rememberLastFrameUnsat(); }
@@ -90,6 +92,7 @@ bool MainSolver::pop() {
         }
         pmanager.invalidatePartitions(mask);
     }
+    OSMT_VERIF_EMIT("FRAME\tpop\t" + std::to_string(frames.last().getId()));
     frames.pop();
     preprocessor.pop();
     termNames.popScope();
@@ -324,6 +327,13 @@ sstat MainSolver::giveToSolver(PTRef root, FrameId push_id) {
         void operator()(vec<Lit> && c) override { clauses.push_back(std::move(c)); }
     };
     ClauseCallBack callBack;
+#ifdef OPENSMT_VERIF
+    if (OSMT_VERIF_TRACING()) {
+        // the formula handed to the CNF encoder for this frame (after preprocessing)
+        verif::declareSymbolsOf(logic, root);
+        verif::emit("PRE\t" + std::to_string(push_id) + "\t" + (trackPartitions() ? "partition" : "frame") + "\t" + logic.termToSMT2String(root));
+    }
+#endif
     ts.setClauseCallBack(&callBack);
     ts.Cnfizer::cnfize(root, push_id);
     bool const keepPartitionsSeparate = trackPartitions();
@@ -349,6 +359,7 @@ sstat MainSolver::giveToSolver(PTRef root, FrameId push_id) {
 
 sstat MainSolver::check() {
     ++check_called;
+    OSMT_VERIF_EMIT("CHECK\tbegin");
     if (config.timeQueries()) {
         printf("; %s query time so far: %f\n", solver_name.c_str(), query_timer.getTime());
         StopWatch sw(query_timer);
@@ -367,6 +378,8 @@ sstat MainSolver::check() {
             rememberUnsatFrame(smt_solver->getConflictFrame());
         }
     }
+    OSMT_VERIF_EMIT(std::string("CHECK\tend\t") + (rval == s_True ? "sat" : rval == s_False ? "unsat" : "unknown"));
+    OSMT_VERIF_FLUSH();
 
     return rval;
 }
